@@ -205,6 +205,48 @@ def showResVal : Res Val → String
   | .err => "err"
   | .panic => "panic"
 
+/-- One `Input` trait call on an input implementation, printed like the harness prints it. -/
+def applyOp {σ : Type} (I : InputOps σ) (op : String) (s : σ) : Option (String × σ) :=
+  match op.toList with
+  | 'r' :: ds =>
+    (String.ofList ds).toNat?.map fun n =>
+      match I.read n s with
+      | (.ok b, s1) => ("k" ++ toHex b, s1)
+      | (.err, s1) => ("e", s1)
+      | (.panic, s1) => ("p", s1)
+  | ['b'] =>
+    some (match I.readByte s with
+      | (.ok b, s1) => ("k" ++ toHex [b], s1)
+      | (.err, s1) => ("e", s1)
+      | (.panic, s1) => ("p", s1))
+  | ['l'] =>
+    some (match I.remainingLen s with
+      | (.ok (some n), s1) => ("s" ++ toString n, s1)
+      | (.ok none, s1) => ("n", s1)
+      | (.err, s1) => ("e", s1)
+      | (.panic, s1) => ("p", s1))
+  | ['d'] =>
+    some (match I.descend s with
+      | (.ok (), s1) => ("k", s1)
+      | (.err, s1) => ("e", s1)
+      | (.panic, s1) => ("p", s1))
+  | ['a'] => some ("k", I.ascend s)
+  | 'm' :: ds =>
+    (String.ofList ds).toNat?.map fun n =>
+      match I.onAlloc n s with
+      | (.ok (), s1) => ("k", s1)
+      | (.err, s1) => ("e", s1)
+      | (.panic, s1) => ("p", s1)
+  | _ => none
+
+/-- Apply an operation sequence to a wrapper over a slice, printing `result:counter` per step. -/
+def runOps {σ : Type} (I : InputOps (σ × Nat)) : List String → σ × Nat → List String → Option (List String)
+  | [], _, acc => some acc.reverse
+  | op :: ops, s, acc =>
+    match applyOp I op s with
+    | some (r, s1) => runOps I ops s1 ((r ++ ":" ++ toString s1.2) :: acc)
+    | none => none
+
 /-- Answer one request line. -/
 def answer (line : String) : String :=
   let toks := (line.trimAscii.toString.splitOn " ").filter (· ≠ "")
@@ -273,7 +315,9 @@ def answer (line : String) : String :=
       match parseHex h with
       | some bs =>
         let (r, rest', c) := decodeCounted ty bs
-        showDec (r, rest') ++ " count=" ++ toString c
+        match r with
+        | .ok _ => showDec (r, rest') ++ " count=" ++ toString c
+        | _ => showDec (r, rest')
       | none => "bad-op"
     | _ => "bad-op"
   | "skip" :: rest =>
@@ -287,6 +331,20 @@ def answer (line : String) : String :=
         | (.panic, _) => "panic"
       | none => "bad-op"
     | _ => "bad-op"
+  | "cops" :: h :: ops =>
+    match parseHex h with
+    | some bs =>
+      match runOps (countedInput sliceInput) ops (bs, 0) [] with
+      | some out => " ".intercalate out
+      | none => "bad-op"
+    | none => "bad-op"
+  | "mops" :: l :: h :: ops =>
+    match l.toNat?, parseHex h with
+    | some l, some bs =>
+      match runOps (memInput l sliceInput) ops (bs, 0) [] with
+      | some out => " ".intercalate out
+      | none => "bad-op"
+    | _, _ => "bad-op"
   | ["len", h] =>
     match parseHex h with
     | some bs =>
